@@ -273,6 +273,13 @@ def run(ctx, model_ok, deep=False):
             lead0 += z
             if z or n_ec <= 3:
                 conv.append((("ec", "P-256" + ("-leading-zero" if z else "")), k))
+        # ... and one such key on every other curve (P-521 values have a zero or one top octet half of the time)
+        for crv in ("secp256k1", "P-384", "P-521"):
+            for _ in range(400 if tier == "thorough" else 260):
+                k = K.gen_key("ec", crv, workdir=ctx.scratch)
+                if any(v < 256 ** (k.width - 1) for v in (k.x, k.y, k.d)):
+                    conv.append((("ec", crv + "-leading-zero"), k))
+                    break
         conv.append((("oct", 40), K.Key("oct", k=os.urandom(40), bits=320)))
         # raw oct key files are key material byte for byte, whatever their last byte is
         for n in (32, 40, 48, 64):
